@@ -117,17 +117,28 @@ def o2(tier):
         lim_e = [p for p in parts if re.search(r'\blimit\b', p)][0]
         off_e = [p for p in parts if re.search(r'\boffset\b', p)][0]
         lk, ok_ = cast_kind(lim_e, 'limit'), cast_kind(off_e, 'offset')
-        if lk is None or ok_ is None:
-            raise S.SqlError(f'{fn}: parameter conversion not understood: {lim_e} / {off_e}')
+        from sqlsym import writes as W
+        generic = {}
+        for nm_, ex_, k_ in (('limit', lim_e, lk), ('offset', off_e, ok_)):
+            if k_ is None:
+                try:
+                    cv = W.conversion(re.sub(r'\b' + nm_ + r'\b', nm_ + '.len()', ex_.lstrip('&').strip()), 'usize')     # `.len()` only tells the translator the operand is a usize
+                except W.OptionFlattened:
+                    cv = None
+                if cv is None or W.INT_BITS.get(cv.out_ty) != 64:
+                    raise S.SqlError(f'{fn}: parameter conversion not understood: {ex_}')
+                generic[nm_] = cv
         l, o, n = z3.BitVec('limit', 64), z3.BitVec('offset', 64), z3.BitVec('n', 64)
         maxl = 10000
         dom = [z3.UGE(l, 1), z3.ULE(l, maxl), z3.ULE(n, 1 << 40)]
 
-        def conv(v, kind):
+        def conv(v, kind, nm_=None):
+            if kind is None:
+                return generic[nm_].fn(v)                   # bit-vector model of the Rust-side conversion (sqlsym/writes.py)
             if kind == 'wrap':
                 return v                                    # same bits, read as signed by SQLite
             return z3.If(z3.ULT(v, I63), v, z3.BitVecVal(I63 - 1, 64))
-        li, oi = conv(l, lk), conv(o, ok_)
+        li, oi = conv(l, lk, 'limit'), conv(o, ok_, 'offset')
         # SQLite: negative OFFSET counts as 0; negative LIMIT means no limit
         start_sql = z3.If(oi < 0, z3.BitVecVal(0, 64), z3.If(oi > n, n, oi))
         avail = n - start_sql
@@ -489,6 +500,29 @@ def o8(tier):
                     r.fail(f'O8/{fn}/{col}/altered-on-write', f'{fn}: {record}.{fld or col} = {xv} is accepted but stored as {sv} via `{conv.text}` and is not read back as given '
                            f'(decoder type {rty}): the stored record differs from the one saved', detail={'x': xv, 'stored': sv, 'conversion': conv.text})
                 r.samples.append(f'{fn}.{col}: forall x: accepted(x) => read({conv.text}) == x  [{ "violated" if sat else "unsat-negation = holds"}]')
+    # read side: each decoder reads every column its table's save_* writes exactly once (a column read twice stands in for one that is never read back)
+    for rel, fn, decoder in SAVE_FNS:
+        if decoder is None:
+            continue
+        try:
+            dbody = re.sub(r'//[^\n]*', '', S.fn_body(dbsrc, decoder))
+        except S.SqlError:
+            continue
+        reads = re.findall(r'row\s*\.\s*get(?:_ref)?(?:::<[^>]*(?:<[^>]*>)?[^>]*>)?\(\s*"(\w+)"\s*\)', dbody)
+        ins = [S.parse_stmt(x) for x in S.program(rel, fn)]
+        ins = [x for x in ins if x.kind == 'INSERT' and x.table in tables]
+        if not ins or not reads:
+            continue
+        written = [c for c in ins[0].cols]
+        r.cases += 1
+        dup = sorted({c for c in reads if reads.count(c) > 1})
+        never = [c for c in written if c not in reads and c not in ('id',) or (c == 'id' and c in written and c not in reads and tables[ins[0].table].pk != ['id'])]
+        never = [c for c in never if c != 'provider_version']
+        if dup and never:
+            r.fail(f'O8/{decoder}/column-read-twice', f'db::{decoder} reads column(s) {dup} more than once and never reads {never}: a field of the decoded record is filled from another field\'s column '
+                   '(e.g. an image key that is really the image hash)')
+        elif never:
+            r.fail(f'O8/{decoder}/column-never-read', f'db::{decoder} never reads column(s) {never} that {fn} writes: the stored value cannot come back')
     r.queries = sol.queries
     r.solver_s = sol.time
     r.functions = [f'mdk_sqlite_storage::{fn} (params![..] + SQL) / db::{d}' for _, fn, d in SAVE_FNS]
@@ -542,8 +576,18 @@ def o13(tier):
     return memobs.find_message_scoped(tier, 'O13', 'O13')
 
 
+def o14(tier):
+    from props import memobs
+    return memobs.last_message_head(tier, 'O14', 'O14')
+
+
+def o15(tier):
+    from props import memobs
+    return memobs.epoch_hint_lookup(tier, 'O15', 'O15')
+
+
 def run(tier, seed, only=None):
-    obs = [('O1', o1), ('O2', o2), ('O3', o3), ('O4', o4), ('O5', o5), ('O6', o6), ('O7', o7), ('O8', o8), ('O9', o9), ('O10', o10), ('O11', o11), ('O12', o12), ('O13', o13)]
+    obs = [('O1', o1), ('O2', o2), ('O3', o3), ('O4', o4), ('O5', o5), ('O6', o6), ('O7', o7), ('O8', o8), ('O9', o9), ('O10', o10), ('O11', o11), ('O12', o12), ('O13', o13), ('O14', o14), ('O15', o15)]
     out = []
     for k, f in obs:
         if only and k not in only:
